@@ -335,6 +335,9 @@ func (w *wsT) clone() *wsT {
 // ---- what buf sees as the leading comment ----
 
 func leadingText(c []string) string {
+	if isRaw(c) {
+		return c[2] // a comment given as literal source (comments.go): the text SourceCodeInfo delivers, from the shape table
+	}
 	var sb strings.Builder
 	for _, l := range c {
 		if l != "" {
@@ -520,9 +523,13 @@ type renderer struct {
 	spans     map[string]span
 	w         *wsT
 	f         *fileT
+	trail     string // a trailing comment waiting for the end of the element's first line (comments.go)
 }
 
 func (r *renderer) write(s string) {
+	if r.trail != "" && strings.HasSuffix(s, "\n") {
+		s, r.trail = s[:len(s)-1]+" "+r.trail+"\n", ""
+	}
 	r.sb.WriteString(s)
 	for _, c := range s {
 		if c == '\n' {
@@ -559,6 +566,23 @@ func pk(base string, xs ...int) string {
 }
 
 func (r *renderer) comment(ind string, c []string, detached bool) {
+	if isRaw(c) {
+		// literal comment source: every line indented, the last one ended; then (detached shapes) a blank line
+		if c[1] != "" {
+			for _, l := range strings.Split(c[1], "\n") {
+				if l == "" {
+					r.write("\n")
+				} else {
+					r.write(ind + l + "\n")
+				}
+			}
+		}
+		if c[4] == "1" {
+			r.write("\n")
+		}
+		r.trail = c[3]
+		return
+	}
 	if detached {
 		r.write(ind + "// (detached note, not documentation)\n\n")
 	}
